@@ -732,7 +732,7 @@ impl Model {
             .map(|(r, i)| format!("{}:{}", r, i))
             .collect();
         format!(
-            "list={} sel={} nopt={} mc={} clear={:?} cur={} run={} pool={}/{} rdone={} re={} dq={} dcmd={} cq={:?} q={:?}",
+            "list={} sel={} nopt={} mc={} clear={:?} cur={} run={} pool={}/{} rdone={} re={} pv={} dq={} dcmd={} cq={:?} q={:?}",
             list.join(","),
             sel.join(","),
             self.num_options,
@@ -744,6 +744,11 @@ impl Model {
             self.item_pool.len(),
             self.reader_control.as_ref().map(|c| c.is_done()).unwrap_or(true),
             self.use_regex,
+            // preview pane shown: was the most recent preview request made for the item under the cursor ("-": no pane)
+            match self.previewer.as_ref() {
+                Some(p) if !self.preview_hidden => p.verif_last_item_is(&self.selection.get_current_item()).to_string(),
+                _ => "-".to_string(),
+            },
             // what the query line shows / the command it stands for (hex), next to what the matcher and reader were given
             self.query.get_fz_query().bytes().map(|b| format!("{:02x}", b)).collect::<String>() + ".",
             self.query.get_cmd().bytes().map(|b| format!("{:02x}", b)).collect::<String>() + ".",
